@@ -70,7 +70,17 @@ def build(rng, idx, family=None):
         xt = b.t(x)
         same = idx != 0 and rng.random() < 0.3          # equal input / output quantisation
         y = b.fm(list(xt.shape), dtype, scale=xt.scales[0] if same else so, zp=xt.zps[0] if same else (0 if dtype == "int16" else None))
-        b.net.ops.append(Op("LEAKY_RELU", [x], [y], ("LeakyReluOptions", dict(Alpha=alpha))))
+        if idx % 5 == 3:
+            # PRELU with a constant uniform negative alpha: convert_prelu turns it into a LeakyRelu with `alpha_scaling` (explicit positive
+            # scale, negative scalar of the IFM type; for int16 an int16 MUL, no int32 path) - its operation list is legal on every tree
+            za = 0 if dtype == "int16" else rng.choice([0, 3, -5] if dtype == "int8" else [0, 100, 128])
+            lo_, hi_ = netgen._qrange(dtype)
+            q = max(lo_, za - rng.choice([1, 20, 100]))
+            al = b.const([1, 1, xt.shape[3]], dtype, np.full(xt.shape[3], q), [rng.choice([0.004, 0.01, 0.02])], [za])
+            b.net.desc.append(f"PRELU uniform alpha q={q} zp={za}")
+            b.net.ops.append(Op("PRELU", [x, al], [y], None))
+        else:
+            b.net.ops.append(Op("LEAKY_RELU", [x], [y], ("LeakyReluOptions", dict(Alpha=alpha))))
         if idx and rng.random() < 0.5:
             k = rng.choice(["relu", "conv", "lrelu"])
             if k == "relu":
